@@ -210,25 +210,25 @@ Variable yl : str -> option val.
    leaf_stable_simple below; evaluated per case by the judge for the rest) *)
 Definition leaf_stable (lf : leaf) (w : val) : Prop :=
   w = VNone \/
-  exists j, adapt yl true None (lf_ty lf) w = Some j /\
+  exists j, ser_leaf yl (lf_ty lf) (lf_def lf) w = Some j /\
             exists w', check_entry yl (lf_ty lf) (lf_def lf) j = Some w' /\ veq w' w = true.
 
 Lemma dump_entry_class0 vr lf w j :
   skipdef_class yl vr lf w = 0%N ->
-  cleanup yl true (vr_skip_none vr) (lf_ty lf) w = EPresent j ->
+  cleanup yl true (vr_skip_none vr) (lf_ty lf) (lf_def lf) w = EPresent j ->
   dump_entry yl vr lf w = EPresent j \/ (dump_entry yl vr lf w = EAbsent /\ veq (lf_def lf) w = true).
 Proof.
   unfold skipdef_class, dump_entry. intros Hc Hcl. rewrite Hcl in *.
   destruct (vr_skip_default vr); [|left; reflexivity].
-  destruct (cleanup yl false (vr_skip_none vr) (lf_ty lf) (lf_def lf)) as [| |dj]; try (left; reflexivity).
+  destruct (cleanup yl false (vr_skip_none vr) (lf_ty lf) (lf_def lf) (lf_def lf)) as [| |dj]; try (left; reflexivity).
   unfold trim. destruct (py_eq j dj).
   - destruct (veq (lf_def lf) w); [right; split; reflexivity|discriminate].
   - destruct (val_eqb (trim_rec j dj) j); [left; reflexivity|discriminate].
 Qed.
 
-Lemma cleanup_nonnone sn t w j :
-  w <> VNone -> adapt yl true None t w = Some j -> cleanup yl true sn t w = EPresent j.
-Proof. intros Hn Hs. destruct w; try congruence; simpl; rewrite Hs; reflexivity. Qed.
+Lemma cleanup_nonnone sn t dflt w j :
+  w <> VNone -> ser_leaf yl t dflt w = Some j -> cleanup yl true sn t dflt w = EPresent j.
+Proof. intros Hn Hs. destruct w; try congruence; unfold cleanup; rewrite Hs; reflexivity. Qed.
 
 Lemma leaf_rt_ok vr lf w :
   leaf_class yl vr (lf, w) = 0%N -> leaf_stable lf w ->
